@@ -262,14 +262,14 @@ func PrunePathValues(paths []*configapi.PathValue, leaveTopDeletedPaths bool) []
 
 	// Order the paths to be pruned lexicographically (and shortest to longest) to make subsequent pruning easier
 	sort.Slice(sortedPaths, func(i, j int) bool {
-		return sortedPaths[i].Path < sortedPaths[j].Path
+		return pathLess(sortedPaths[i].Path, sortedPaths[j].Path)
 	})
 
 	prunedPaths := make([]*configapi.PathValue, 0, len(sortedPaths))
 	deletingPrefix := ""
 	for _, pv := range sortedPaths {
 		// If this path is marked as deleted and we're already not deleting this subtree, start deleting
-		if pv.Deleted && (len(deletingPrefix) == 0 || !strings.HasPrefix(pv.Path, deletingPrefix)) {
+		if pv.Deleted && (len(deletingPrefix) == 0 || !hasPathPrefix(pv.Path, deletingPrefix)) {
 			deletingPrefix = pv.Path
 
 			// If we're asked to leave behind the top deleted node of a sub-tree, add it here
@@ -280,13 +280,42 @@ func PrunePathValues(paths []*configapi.PathValue, leaveTopDeletedPaths bool) []
 
 		// If we're not currently deleting or if the node is not part of the sub-tree, add it and cancel deletion
 		// since we have left the sub-tree.
-		if len(deletingPrefix) == 0 || !strings.HasPrefix(pv.Path, deletingPrefix) {
+		if len(deletingPrefix) == 0 || !hasPathPrefix(pv.Path, deletingPrefix) {
 			prunedPaths = append(prunedPaths, pv)
 			deletingPrefix = ""
 		}
 	}
 
 	return prunedPaths
+}
+
+// hasPathPrefix reports whether path is prefix itself or lies beneath it at a path element boundary
+func hasPathPrefix(path string, prefix string) bool {
+	if !strings.HasPrefix(path, prefix) {
+		return false
+	}
+	return len(path) == len(prefix) || path[len(prefix)] == '/' || path[len(prefix)] == '['
+}
+
+// pathLess orders paths so that everything beneath a path follows it immediately
+func pathLess(a string, b string) bool {
+	for i := 0; i < len(a) && i < len(b); i++ {
+		if a[i] != b[i] {
+			return pathByteRank(a[i]) < pathByteRank(b[i])
+		}
+	}
+	return len(a) < len(b)
+}
+
+func pathByteRank(c byte) int {
+	switch c {
+	case '/':
+		return 0
+	case '[':
+		return 1
+	default:
+		return int(c) + 2
+	}
 }
 
 // PrunePathMap produces a copy of the given path values map, with paths marked as deleted and their sub-paths removed.
